@@ -304,7 +304,7 @@ def _nf(strs):
     for k in G.OPAQUE:
         for s in strs:
             n = C12.NF.get(k, {}).get(s)
-            if n is not None:
+            if isinstance(n, str):
                 closure.add(n)
     return G.nf_lines(C12.NF, closure)
 
@@ -411,7 +411,8 @@ def widen(rng, ty, depth=2):
     k = ty[0]
     r = rng.random()
     if k == "opt":
-        return ["opt", widen(rng, ty[1], depth - 1)]
+        w = widen(rng, ty[1], depth - 1)
+        return w if w[0] == "opt" else ["opt", w]
     if r < 0.3 and k != "union":
         return ["opt", ty]
     if k == "union":
